@@ -15,6 +15,12 @@ NA = {
 }
 
 CHECKS = {
+    "C18": dict(
+        text="Seeded search over operation histories of the modal analysis: evaluate(k, ncv) with the ARPACK start vector drawn from the run seed (the shipped default is OS entropy), extract(n, inplace), re-evaluate after in-place extraction, eigen-solver faults (ArpackNoConvergence / RuntimeError must propagate), a twin world on a rigidly moved mesh; over element families, densities, elastic constants, boundary dictionaries (none, clamped, partial, point sets), stiffness multipliers, mixed containers. Oracles: operators handed to the solver equal independently assembled K[dof1,dof1] / M[dof1,dof1]; every returned pair satisfies the eigen equation; returned eigenvalues lie in the dense spectrum; spectra agree across start vectors and under rigid motion; mode shapes are the eigenvector scattered to the free unknowns with frequency sqrt(lambda)/2pi. Sampling, not proof. One open known finding (singular constrained stiffness).",
+        note="Trusted: scipy.linalg dense eigensolver and SVD as reference, numpy, the reference mass assembler. Real: FreeVibration, SolidBody.matrix/mass, dof.partition, ARPACK + SuperLU. Simulated: start vector, solver faults, operation history. The shift is fixed at 0 (evaluate(sigma=...) raises TypeError - observation).",
+        technique="deterministic simulation: seeded random start vectors of a randomised eigen-solver, operation histories on shared mutable field state, solver fault injection, rigid-motion twin",
+        ref="DESIGN.md section 7 (C18)",
+    ),
     "C10": dict(
         text="Seeded search over load histories with twin worlds: (1) the stateful condensed nearly-incompressible body vs the explicit (u,p,J) formulation with cell-wise constant duals (3D, plane strain, axisymmetric; distorted meshes; bulk/shear 5..5000; exact and inexact solves) compared at every converged substep in u and at the settled end state in p and J, plus a restart that drops the condensed state; (2) the uniform-grid fast path as a flipped knob: same history with uniform=True/False, assembled vectors/matrices compared at identical iterates and all converged states compared. Sampled-only twins at the reached states: plane strain vs unit-thickness slab (forces and stiffness), axisymmetric forces vs central differences of the 2 pi R weighted energy. Sampling, not proof; convergence of the axisymmetric model to a revolved 3D model is not attempted.",
         note="Trusted: numpy/scipy, converged-state tolerance 2e-5 relative scaled with the Newton tolerance. Real: both formulations, regions, fields, assembly, Newton. Simulated: the twin histories, restart (state loss), solver inexactness, the uniform knob.",
